@@ -686,6 +686,20 @@ class Interp:
             else:
                 ctx.heap[field] = ctx.fresh_const('loopheap!%s' % field, z3.ArraySort(RefSort, ty.sort()))
         for field in spec.havoc_fields:
+            if isinstance(field, tuple):
+                # ('local', 'field'): only that object's cell is forgotten (the loop is then checked to leave the other cells
+                # of the field alone, see _loop_after_body)
+                lname, fld = field
+                base = fr.locals.get(lname)
+                if not isinstance(base, VRef) or lname in self.assigned_names(body):
+                    raise Unsupported('havoc cell (%r, %r): %r is not a fixed object reference in this loop' % (lname, fld, lname), st)
+                ty = self.engine.field_type(fld)
+                fresh = ctx.fresh_const('loop!%s' % fld, ty.sort())
+                ctx.heap[fld] = z3.Store(ctx.field_array(fld), base.t, fresh)
+                inv = ty.invariant(fresh)
+                if inv is not None:
+                    ctx.assume(inv)
+                continue
             ty = self.engine.field_type(field)
             ctx.heap[field] = ctx.fresh_const('loopheap!%s' % field, z3.ArraySort(RefSort, ty.sort()))
 
@@ -749,7 +763,14 @@ class Interp:
         self.havoc_loop_state(st, fr, spec)
         if not hasattr(fr, 'loop_havocked'):
             fr.loop_havocked = {}
-        fr.loop_havocked[ordinal] = {f for f, a in ctx.heap.items() if heap_before_havoc.get(f) is None or not a.eq(heap_before_havoc[f])}
+        hv = {}
+        for f, a in ctx.heap.items():
+            b = heap_before_havoc.get(f)
+            if b is not None and a.eq(b):
+                continue
+            # cells forgotten: the indices of the Store chain put on top of the pre-loop array, or the whole field (None)
+            hv[f] = self._store_indices(a, b) if b is not None else None
+        fr.loop_havocked[ordinal] = hv
         if not hasattr(fr, 'loop_alloc'):
             fr.loop_alloc = {}
         fr.loop_alloc[ordinal] = ctx.alloc          # objects allocated from here on are the iteration's own
@@ -767,10 +788,27 @@ class Interp:
         # fail closed: whatever this iteration wrote to the heap (directly, through inlined callees or through the
         # modifies-havoc of a callee's contract) must have been havocked at the loop head, or the invariant would be
         # assumed for a state in which that field still has its pre-loop value
-        hav = getattr(fr, 'loop_havocked', {}).get(ordinal, set())
-        missed = sorted(f for f, a in ctx.heap.items()
-                        if f not in hav and (pre_heap.get(f) is None or not a.eq(pre_heap[f]))
-                        and not self._writes_only_new_objects(pre_heap.get(f), a, getattr(fr, 'loop_alloc', {}).get(ordinal, 0)))
+        hav = getattr(fr, 'loop_havocked', {}).get(ordinal, {})
+        base_new = type(ctx).BASE + getattr(fr, 'loop_alloc', {}).get(ordinal, 0)
+        missed = []
+        for f, a in ctx.heap.items():
+            if pre_heap.get(f) is not None and a.eq(pre_heap[f]):
+                continue
+            if f in hav and hav[f] is None:
+                continue                      # the whole field was forgotten at the head
+            written = self._store_indices(a, pre_heap.get(f))
+            if written is None:
+                missed.append(f)
+                continue
+            for r in written:
+                rs = simp(r)
+                if z3.is_int_value(rs) and rs.as_long() >= base_new:
+                    continue                  # an object created by this iteration
+                if any(r.eq(h) or rs.eq(simp(h)) for h in (hav.get(f) or [])):
+                    continue                  # a cell that was forgotten at the head
+                missed.append(f)
+                break
+        missed = sorted(set(missed))
         if missed:
             raise Unsupported('loop %d changes heap field(s) %s that were not havocked at its head; add them to havoc_fields of the '
                               'loop spec' % (ordinal, ', '.join(missed)), st)
@@ -878,6 +916,22 @@ class Interp:
         except ContinueSig:
             pass
         self._loop_after_body(st, fr, spec, ordinal, ghosts, {}, {}, pre_locals, pre_heap, mark)
+
+    def _store_indices(self, new, old):
+        """index terms of the Store chain that leads from `old` to `new`; None when `new` is not such a chain"""
+        idx = []
+        cur = new
+        for _ in range(512):
+            if old is not None and cur.eq(old):
+                return idx
+            if z3.is_app(cur) and cur.decl().kind() == z3.Z3_OP_STORE:
+                idx.append(cur.arg(1))
+                cur = cur.arg(0)
+                continue
+            break
+        if old is None and z3.is_const(cur) and cur.decl().name().startswith('heap0!'):
+            return idx
+        return None
 
     def _writes_only_new_objects(self, old, new, alloc_at_head=0):
         """is `new` = old with stores at references allocated on this path only (objects created by the iteration itself
